@@ -1764,9 +1764,11 @@ def main_kernels_and_trend(write=True):
     """C03: regenerate both Gen/Kernels.lean and Gen/Trend.lean; combined status."""
     s1, d1 = main(write)
     s2, d2 = main_trend(write)
+    import py2lean_gridder
+    s3, d3 = py2lean_gridder.main_loops(write)      # the array loops around the kernels (Gen/Loops.lean)
     order_ = ["untranslatable", "changed", "ok"]
-    st = min((s1, s2), key=order_.index)
-    return st, "; ".join(d for d in (d1, d2) if d)
+    st = min((s1, s2, s3), key=order_.index)
+    return st, "; ".join(d for d in (d1, d2, d3) if d)
 
 
 def _regen(gen_fn, gen_path, snap_path, write=True):
